@@ -84,7 +84,7 @@ def run(prop_id, mod, prog, ctx, jobs=16):
         out["mutants_applied"] += 1
         expect = s.get("expect")
         exp = [expect] if isinstance(expect, str) else list(expect or [])
-        hit = r["status"] == "analysis-error" and s.get("accept_analysis_error") or any(
+        hit = (r["status"] == "analysis-error" or any(x.endswith(".SHAPE") for x in r.get("rules", []))) and s.get("accept_analysis_error") or any(
             e in r.get("rules", []) for e in exp) or (not exp and r.get("rules"))
         if hit:
             out["mutants_killed"] += 1
